@@ -26,6 +26,7 @@ class C03(Prop):
 
     # translator tie (DESIGN II.7): module -> pipeline heads built from that observer
     tie_modules = {
+        "RxModel.GenTie.Sources": [],      # of / of_result / of_option / of_fn / from_iter / throw / empty / never
         "RxModel.GenTie.Map": ["map", "all", "min", "max", "average"],
         "RxModel.GenTie.MapTo": ["mapto"],
         "RxModel.GenTie.Filter": ["filter", "ignore", "all"],
